@@ -1,0 +1,19 @@
+//! Verification hooks. Compiled only with `--cfg rws_verif`.
+//!
+//! In the shipped binary (flag off) this module does not exist. With the flag on and no
+//! harness substituting it, everything here is a plain re-export of std or a no-op, so the
+//! server behaves exactly as without the flag. The verification harnesses under /verif
+//! replace this module (via `#[path]`) with a controlled scheduler (request path) or a
+//! loom shim (thread pool).
+
+pub use std::thread;
+pub use std::sync::{Arc, mpsc, Mutex};
+
+/// Scheduling / observation point on the request path. No-op here.
+#[inline(always)]
+pub fn point(_label: &'static str) {}
+
+/// Whether a worker should leave its loop once the job channel is disconnected.
+/// Production keeps the historical behaviour (never).
+#[inline(always)]
+pub fn exit_on_disconnect() -> bool { false }
